@@ -131,12 +131,14 @@ func vc07Source(src int, s1, s2 int64) (*Subtitles, error) {
 		return ReadFromSTL(bytes.NewReader(buf.Bytes()), STLOptions{})
 	case 4:
 		doc := &TTMLIn{Framerate: 0, Lang: "en"}
-		doc.Subtitles = append(doc.Subtitles, TTMLInSubtitle{Begin: vdur(s1 * 1000000000), End: vdur((10 + s1) * 1000000000)})
+		// a region without origin/extent, referred to by the first paragraph
+		doc.Regions = append(doc.Regions, TTMLInRegion{TTMLInHeader: TTMLInHeader{ID: "r1"}})
+		doc.Subtitles = append(doc.Subtitles, TTMLInSubtitle{Begin: vdur(s1 * 1000000000), End: vdur((10 + s1) * 1000000000), Region: "r1"})
 		doc.Subtitles = append(doc.Subtitles, TTMLInSubtitle{Begin: vdur((60 + s2) * 1000000000), End: vdur((70 + s2) * 1000000000)})
 		vttmlDoc, vttmlItems, vttmlItemsPos = doc, []TTMLInItems{{{Text: "Hello"}}, {{Text: "World"}}}, 0
 		// the same document as text, for native runs (the engine's decode provider ignores the bytes)
-		return ReadFromTTML(bytes.NewReader([]byte("<tt xmlns=\"http://www.w3.org/ns/ttml\" xml:lang=\"en\"><head></head><body><div>" +
-			"<p begin=\"00:00:0" + d1 + ".000\" end=\"00:00:1" + d1 + ".000\">Hello</p><p begin=\"00:01:0" + d2 + ".000\" end=\"00:01:1" + d2 + ".000\">World</p></div></body></tt>")))
+		return ReadFromTTML(bytes.NewReader([]byte("<tt xmlns=\"http://www.w3.org/ns/ttml\" xml:lang=\"en\"><head><layout><region xml:id=\"r1\"/></layout></head><body><div>" +
+			"<p region=\"r1\" begin=\"00:00:0" + d1 + ".000\" end=\"00:00:1" + d1 + ".000\">Hello</p><p begin=\"00:01:0" + d2 + ".000\" end=\"00:01:1" + d2 + ".000\">World</p></div></body></tt>")))
 	default:
 		vtsData, vtsPos = nil, 0
 		p := func(sec int64) int64 { return sec * 90000 }
